@@ -356,6 +356,7 @@ def r6_locking_mode(ctx, prog):
         if d[p0]:
             cenv[re.compile(r'\w+(->|\.)(CreateMutex|DestroyMutex|LockMutex|UnlockMutex)')] = d['cb']
             cenv[re.compile(r'\w+(->|\.)flags')] = d['flags']
+        cenv = helper_values(prog, f, cenv)      # conditions on the arguments may live in file-local helpers
         o = Outcomes(f, prog, cenv=cenv, record_calls={'enable', 'disable'})
         o.CAP = 96
         o.LOOP_ROUNDS = 1
@@ -367,6 +368,11 @@ def r6_locking_mode(ctx, prog):
             r.undecided(f['qname'], site, 'no successful path under this assignment', file=f['file'], line=f['line'])
             continue
         bad = None
+        argv = {x['var']['name'] for n in walk(f['body']) if n.get('k') == 'Decl' for x in n['decls'] if 'CK_C_INITIALIZE_ARGS' in (x.get('type') or '')} | {p0}
+        open_ = sorted({a for oc in okp for a, _ in oc['facts'] if any(re.search(r'\b%s\b' % re.escape(v), a) for v in argv)})
+        if open_:
+            r.undecided(f['qname'], site, 'a successful path depends on a condition on the arguments that the assignment does not decide: %s' % open_[0][:120], file=f['file'], line=f['line'])
+            continue
         for oc in okp:
             sw = [e[1] for e in oc['events'] if e[0] == 'call' and e[1] in ('enable', 'disable')]
             if not sw:
